@@ -43,3 +43,21 @@ CHECKS["C02"] = dict(
     level_text="Random search over DAG x selector x store split against an independent reference traversal with exact-equality oracles on delivered nodes, errors and stored blocks. Finds violations with small witnesses (two defects found and fixed, one recorded); establishes nothing beyond the cases run.",
     level_note="Trusts go-ipld-prime's walk and the 40-line two-store resolver in dagen/ref.go. Honest FIFO schedule only (schedules are C06/C20).",
     technique="rapid property-based testing, differential against a reference two-store traversal", design_ref="DESIGN.md §4 C02")
+
+CHECKS["C24"] = dict(
+    pkg="props/c24", level="exploration", gomaxprocs=1,
+    rule="C02-style cases (DAG x selector x 4-way store split) plus, in a quarter of them, user-supplied do-not-send-first-blocks (0-6) and/or do-not-send-cids (0-4 DAG blocks); two real instances; everything the requestor and responder put on the wire is examined. Oracle: (a) requestor store covers the whole reference traversal => zero messages sent and the request completes; (b) otherwise exactly one New request whose skip count equals the number of link loads the reference resolves locally before the first local miss (max with the user's value; 0/absent when none); (c) per response message, every block carried is attributed to a Present metadata entry of that message, and none has responder-traversal index <= skip count, is in the user's do-not-send set, or was already transmitted for the request. Non-trivial: skip count >= 1 with a partial split, or a fully local request, or a user extension present.",
+    assumptions=_SIM_ASSUME + ["index ambiguity resolved in the code's favour: a block must be withheld only if its index counting every link traversal (present or missing) is <= the skip count"],
+    quick=dict(shards=2, timeout=400), thorough=dict(shards=16, timeout=3000),
+    level_text="Random search over the same case space as C02 with wire-level oracles on what is sent; nothing beyond the cases run is established.",
+    level_note="Trusts the reference traversal for the expected skip count and the wire decoder for what was transmitted.",
+    technique="rapid property-based testing with a wire-transcript oracle derived from a reference traversal", design_ref="DESIGN.md §4 C24")
+
+CHECKS["C07"] = dict(
+    pkg="props/c07", level="exploration", gomaxprocs=1,
+    rule="C02-style case (3 in 4 with the responder holding everything and the requestor nothing: the exact sub-case) x enforcing site (requestor: MaxLinksPerOutgoingRequests + outgoing-request hook MaxLinks; responder: MaxLinksPerIncomingRequests + incoming-request hook MaxLinks) x global and per-request budgets each from {0,1,2,needed-1,needed,needed+1,1000}; N = smaller non-zero. Oracle: blocks loaded by the enforcing peer (requestor: validated-block hook calls; responder: Present metadata entries) <= N always; link loads needed <= N => no budget error / failure status and outcome identical to the unbudgeted reference; full stores and needed > N => exactly N blocks (requestor) / exactly N metadata entries (responder) then *traversal.ErrBudgetExceeded on the error channel / a failure status. Non-trivial: N in {1,needed-1,needed,needed+1} or both budgets set.",
+    assumptions=_SIM_ASSUME + ["partial stores assert only the cap and 'no failure when attempts <= N' (ipld-prime charges attempts; the statement counts blocks)"],
+    quick=dict(shards=2, timeout=400), thorough=dict(shards=16, timeout=3000),
+    level_text="Random search with budgets placed at the boundaries of what each generated traversal needs; exact-count oracles. One defect (N=1) found and fixed.",
+    level_note="Trusts the reference traversal for 'needed'.",
+    technique="rapid property-based testing, boundary-value budgets against a reference traversal", design_ref="DESIGN.md §4 C07")
